@@ -112,8 +112,12 @@ func checkCompositeLiteral(
 	if ptr, ok := types.Unalias(t).(*types.Pointer); ok {
 		t = ptr.Elem()
 	} else if ptr, ok := t.Underlying().(*types.Pointer); ok && lit.Type == nil {
-		// elided element literal whose element type is a defined pointer type (type NP *T; []NP{{...}})
-		t = ptr.Elem()
+		// elided element literal whose element type is a defined pointer type (type NP *T; []NP{{...}}):
+		// it builds a T - unless the defined pointer type carries the annotation itself
+		if np, isNamed := types.Unalias(t).(*types.Named); !isNamed || np.Obj().Pkg() == nil ||
+			!constructors.HasType(np.Obj().Pkg().Path(), np.Obj().Name()) {
+			t = ptr.Elem()
+		}
 	}
 
 	named, ok := types.Unalias(t).(*types.Named)
